@@ -14,6 +14,7 @@ import time
 from concurrent.futures import ThreadPoolExecutor
 
 HERE = os.path.dirname(os.path.dirname(os.path.abspath(__file__)))
+_TMP = "/var/tmp" if os.path.isdir("/var/tmp") else None  # scratch space outside /repo and /verif
 PY = os.environ.get("VP_PYTHON", "/venv/bin/python")
 
 
@@ -45,7 +46,7 @@ def mutants(props):
 
 
 def run_one(pid, name, patch):
-    td = tempfile.mkdtemp(prefix="vp_mut_", dir="/var/tmp")
+    td = tempfile.mkdtemp(prefix="vp_mut_", dir=_TMP)
     t0 = time.time()
     try:
         shutil.copytree("/repo/jinns", os.path.join(td, "jinns"))
